@@ -6,7 +6,7 @@ func c05n() int {
 	if vrt.Tier() == 0 {
 		return 20
 	}
-	return 40
+	return 32
 }
 
 // C05 — ReadEncoderBoundaryPoint and the getters of its result are total on every byte string up to the bound
